@@ -138,5 +138,11 @@ CLAIMS['C30'] = {
   'note': _TB + 'The pixel buffer writes only the cells of the index it is given (stand-in). Call sites other than _draw_box_filled are assumed to satisfy the stop >= 0 precondition via cutoff_coord; the active page is the buffer bound by set_page.',
 }
 
+CLAIMS['C23'] = {
+  'text': 'Proof of the reset postconditions on the real reset code (Implementation.clear_/new_/run_/_clear_all, Interpreter.clear/clear_stacks_and_pointers, DataSegment.clear with the real Scalars/Arrays/StringSpace/UserFunctionManager/Randomiser clear methods): '
+          'after CLEAR, NEW and RUN no scalar, array, string, DEF FN, DEFtype, OPTION BASE, FOR/WHILE/GOSUB stack, error trap, event trap or random state survives. CHAIN/COMMON is not covered.',
+  'note': _TB + 'Devices, program object and event table are recording stand-ins; the populated state is one concrete scenario. One defect found and fixed (CLEAR kept the GOSUB stack).',
+}
+
 NOT_APPLICABLE = {
 }
